@@ -39,7 +39,10 @@ LINE_KINDS = ['ev', 'sym', 'blank', 'ws']
 
 
 def plan(tier, seed):
-    tasks = []
+    tasks = [('storage_ctor', {'i': i}) for i in range(len(STORAGE_OBSTACLES))]
+    for i in range(len(GUARDED_COMMANDS)):
+        for phase in ('pre', 'post'):
+            tasks.append(('hook_guard', {'i': i, 'phase': phase}))
     nmax = 3 if tier == 'quick' else 4
     for n in range(0, nmax + 1):
         for combo in itertools.product(LINE_KINDS, repeat=n):
@@ -72,7 +75,49 @@ def plan(tier, seed):
     return out + [t for t in tasks if t[0] != 'journal_parse']
 
 
+GUARDED_COMMANDS = ['commit', 'rebase', 'reset', 'cherry-pick', 'push', 'fetch', 'pull', 'stash', 'merge', 'checkout', 'switch', 'status']
+
+
 def install(M):
+    import re as _re
+
+    # K5: every hook body panics (only while that obligation runs)
+    def hook_panics(P, c, args, dt):
+        if not P.state.get('c07_guard'):
+            cand = P.M.candidate(c.raw)
+            if cand is None:
+                raise Unsupported('no MIR for %s' % c.raw)
+            fn = P.M.mir.get(cand)
+            return P.run_fn(fn, P._untuple(fn, args, c))
+        P.events.append(('hook_body', c.key))
+        raise Panic('a hook body panicked: %s' % c.key)
+    M.env_patterns.append((_re.compile(r'^commands::hooks::\w+::(\w+_hook|handle_\w+_post_command)$'), hook_panics))
+
+    def real(P, c, args):
+        cand = P.M.candidate(c.raw)
+        if cand is None:
+            raise Unsupported('no MIR for %s' % c.raw)
+        fn = P.M.mir.get(cand)
+        return P.run_fn(fn, P._untuple(fn, args, c))
+
+    def cfg_get(P, c, args, dt):
+        if not P.state.get('c07_guard'):
+            return real(P, c, args)
+        return Ref(Cell(Agg('config::Config', [])))
+
+    def cfg_flags(P, c, args, dt):
+        if not P.state.get('c07_guard'):
+            return real(P, c, args)
+        from harness import c14
+        return Ref(Cell(c14.AnyField('feature_flags::FeatureFlags', [TRUE])))
+    M.env['config::Config::get'] = cfg_get
+    M.env['config::Config::feature_flags'] = cfg_flags
+    M.env['config::Config::get_feature_flags'] = cfg_flags
+
+    def hooks_guard(P, c, args, dt):
+        return Opaque('InternalGitHooksGuard', None)
+    M.env['git::repository::disable_internal_git_hooks'] = hooks_guard
+
     # std::process::ExitStatus / libc at the boundary
     def es_code(P, c, args, dt):
         st = tgt(args[0])
@@ -460,7 +505,58 @@ def ob_pre_commit_refusal(h, shape):
     h.sample = h.witness()
 
 
-OBLIGATIONS = {'post_hook_journal': ob_post_hook_journal, 'pre_commit_refusal': ob_pre_commit_refusal, 'journal_parse': ob_journal_parse, 'journal_append': ob_journal_append, 'initial_read': ob_initial_read,
+STORAGE_OBSTACLES = [None, '/w/.git/ai', '/w/.git/ai/working_logs', '/w/.git/ai/logs', '/w/.git/ai/rewrite_log']
+
+
+def ob_storage_ctor(h, shape):
+    """K4: find_repository builds the storage handle for EVERY wrapped command, outside any panic guard, before git is
+    run: whatever is in the way under .git/ai (a regular file where a directory is expected, a directory where the
+    journal is expected) it must come back - git-ai may record nothing, git must still run"""
+    from mirsym.models.paths import mk_pathbuf
+    P = h.P
+    fs = {'/w': 'DIR', '/w/.git': 'DIR'}
+    ob = STORAGE_OBSTACLES[shape['i']]
+    if ob is not None:
+        fs[ob] = 'DIR' if ob.endswith('rewrite_log') else pystring('in the way\n')
+    P.state['fs'] = fs
+    h.inputs_struct = {'obstacle': ob}
+    try:
+        P.call_named('git::repo_storage::RepoStorage::for_repo_path', [Ref(Cell(mk_pathbuf(list(b'/w/.git')))), Ref(Cell(mk_pathbuf(list(b'/w'))))])
+    except Panic as e:
+        h.panic('K4-storage-handle-never-panics', e.msg)
+        return
+    h.require(True, 'K4-storage-handle-comes-back')
+    h.sample = h.witness()
+
+
+def ob_hook_guard(h, shape):
+    """K5: whatever goes wrong inside a hook body (here: every hook body panics), the dispatchers that run before and
+    after git come back: a panic never escapes into the wrapper, which still has to run git / hand on git's status"""
+    P = h.P
+    M = P.M
+    cmd = GUARDED_COMMANDS[shape['i']]
+    P.state['c07_guard'] = True
+    argv = [cmd, 'x']
+    h.inputs_struct = {'guard_argv': argv, 'phase': shape['phase']}
+    parsed = P.call_named('git::cli_parser::parse_git_cli_args', [SliceRef(VecV([pystring(x) for x in argv]), 0, len(argv))])
+    CTX = 'commands::git_handlers::CommandHooksContext'
+    ctx = Agg(CTX, [none() for _ in M.src.struct_fields(CTX)])
+    repo = Agg('git::repository::Repository', [])
+    status = Opaque('ExitStatus', {'code': some(Sc(0, 32, True)), 'signal': none()})
+    try:
+        if shape['phase'] == 'pre':
+            P.call_named('commands::git_handlers::run_pre_command_hooks', [Ref(Cell(ctx)), Ref(Cell(parsed)), Ref(Cell(repo))])
+        else:
+            P.call_named('commands::git_handlers::run_post_command_hooks', [Ref(Cell(ctx)), Ref(Cell(parsed)), status, Ref(Cell(repo))])
+    except Panic as e:
+        h.panic('K5-hook-panics-never-escape', '`git %s`, %s-command hooks: %s' % (cmd, shape['phase'], e.msg))
+        return
+    h.require(True, 'K5-dispatcher-comes-back')
+    h.cover('K5-a-hook-body-ran', any(e[0] == 'hook_body' for e in P.events))
+    h.sample = h.witness()
+
+
+OBLIGATIONS = {'hook_guard': ob_hook_guard, 'storage_ctor': ob_storage_ctor, 'post_hook_journal': ob_post_hook_journal, 'pre_commit_refusal': ob_pre_commit_refusal, 'journal_parse': ob_journal_parse, 'journal_append': ob_journal_append, 'initial_read': ob_initial_read,
                'checkpoints_read': ob_checkpoints_read, 'exit_status': ob_exit_status, 'batch': ob_batch}
 
 
@@ -525,6 +621,11 @@ def replay_exit_status(v, native):
 
 
 def replay(v, native):
+    if 'guard_argv' in v['inputs']:
+        return {'reproduced': False, 'note': 'a panicking hook body cannot be staged natively without changing the code'}
+    if 'obstacle' in v['inputs']:
+        r = native('c07_storage_ctor', v['inputs'])
+        return {'reproduced': bool(r.get('panicked')) or 'panic' in r, 'native': r} if v['kind'] == 'panic' else {'reproduced': False, 'native': r}
     inp = v['inputs']
     ob = v['obligation']
     if ob.startswith('K1-exit') or ob.startswith('K1-signal'):
@@ -561,7 +662,7 @@ def replay(v, native):
     return {'reproduced': ob in r.get('failed', []), 'native': r}
 
 
-MUST_COVER = ['K1-journal-step-failed', 'K1-journal-step-ok', 'K2-refused', 'K2-let-git-run']
+MUST_COVER = ['K1-journal-step-failed', 'K1-journal-step-ok', 'K2-refused', 'K2-let-git-run', 'K5-a-hook-body-ran']
 
 
 def replay_priority(v):
